@@ -45,6 +45,11 @@ func runC11(w *World, tier string) (bool, interface{}) {
 	// the board is unreachable for single submissions now and then (also for the
 	// one that carries the victim's refusal); operators submit again
 	c.L.Faults.BoardDownAtSubmit = w.Tape.Bool(1, 2, "boardOutages")
+	if w.Tape.Bool(1, 2, "operatorsRetryRefusals") {
+		for _, op := range c.Ops {
+			op.RetryRefused = true
+		}
+	}
 	c.L.Faults.PermuteResults = true
 	members := AllMembers(n)
 	D := w.Tape.Choose(n, "dealer")
